@@ -298,7 +298,7 @@ CHECKS['naming'] = check_naming
 
 def naming_shard(st, shard, nshards, payload):
     """Systematic: every structure of the small scope x a dozen formulas x EVERY state naming."""
-    names = sorted(graphs.NAMINGS)
+    names = sorted(k for k in graphs.NAMINGS if k != 'nonefirst')      # None is never a Kripke state (labels(None) = all labels)
     i = -1
     for n, stride in payload['scopes']:
         for j, K in enumerate(km.scope(n)):
